@@ -21,7 +21,7 @@ ID = "C13"
 CASE_BUDGET_S = 600
 
 SHAPES = [(), (1,), (3,), (2, 2), (1, 1, 2), (2, 1, 3)]
-VARIANTS = ["canon", "T", "slice", "zeroterm", "unusedname", "F", "unsorted"]
+VARIANTS = ["canon", "T", "slice", "zeroterm", "unusedname", "F", "unsorted", "rev", "readonly"]
 
 META = {
     "rule": "polynomials of 6 shapes (0-d, size-1, multi-dimensional) x 5 term structures (single term .. 5 terms, constants) x "
@@ -70,7 +70,7 @@ def all_inputs():
                     for var in VARIANTS:
                         if var in ("T", "F") and len(shape) < 2:
                             continue
-                        if var == "slice" and not shape:
+                        if var in ("slice", "rev") and not shape:
                             continue
                         yield shape, names, kind, label, var, spec(names, shape, terms, dt, var)
 
